@@ -193,3 +193,55 @@ Theorem simplify_sound_program : forall fuel e res o,
   wf e = true -> run2 fuel e = Some (res, o) -> run2 fuel (simplify e [] true) = Some (res, o).
 Proof. exact Sem2Proofs.simplify_sound_program. Qed.
 Print Assumptions simplify_sound_program.
+
+(** ROUND 2 — (B) kind-exact model C09/Kinded.v [ksimplify]: immediates (KImm), SEXP_LIT nodes (KLit: quoted data and fold
+    results) and self-evaluating heap data (KObj) are kept apart exactly as analyze (eval.c:1102-1244) produces them and
+    as simplify.c tests them; this is the model whose output is compared token for token with the implementation's AST.
+    It refines the proved model through [erase] (which identifies KImm and KLit), for every expression, substitution
+    list and dynamic state — so the soundness theorems above speak about it. *)
+From ChibiV Require Import C09.Kinded C09.KindedProofs.
+
+Theorem ksimplify_refines_simplify : forall e d S il,
+  erase (ksimplify d e S il) = simplify (erase e) (map erase_subst S) il.
+Proof. exact KindedProofs.erase_ksimplify. Qed.
+Print Assumptions ksimplify_refines_simplify.
+
+Theorem ksimplify_sound_program : forall d fuel e res o,
+  kwf e = true -> run2 fuel (erase e) = Some (res, o) -> run2 fuel (erase (ksimplify d e [] true)) = Some (res, o).
+Proof. exact KindedProofs.ksimplify_sound_program. Qed.
+Print Assumptions ksimplify_sound_program.
+
+Theorem ksexp_simplify_sound : forall d e s v s1,
+  eval (erase e) s = (Some v, s1) -> eval (erase (ksexp_simplify d e)) s = (Some v, s1).
+Proof. exact KindedProofs.ksexp_simplify_sound. Qed.
+Print Assumptions ksexp_simplify_sound.
+
+(** a constant test is decided by its VALUE, whether it is an immediate or sits inside a lit node (simplify.c:112
+    `sexp_litp(tmp) ? sexp_lit_value(tmp) : tmp`): (if '#f a b) = (if #f a b) = b *)
+Theorem quoted_test_unwrapped : forall d c a b S il,
+  ksimplify d (KCnd (KLit c) a b) S il = ksimplify d (KCnd (KImm c) a b) S il /\
+  ksimplify d (KCnd (KLit c) a b) S il = (if const_false c then ksimplify d b S il else ksimplify d a S il).
+Proof. exact KindedProofs.quoted_test_unwrapped. Qed.
+Print Assumptions quoted_test_unwrapped.
+
+(** (A) folding is unobservable.  The fold RUNS the application in the VM (simplify.c:46-58).  Refinement obligation on
+    the C, made explicit by [Kinded.fold_eval] = [apply_no_err_handler] (vm.c:2474-2494): the run happens with NO
+    exception handler and NO parameter bindings of the compiling program, an exception is discarded, and handler cell and
+    parameter list are restored — so it yields exactly [prim_eval], no event, and the unchanged dynamic state [d].
+    (A plain sexp_apply, [vm_apply], does emit an event under an installed handler: KindedProofs.vm_apply_observable.)
+    Tied by the K-inner stream that runs (optimize ast) inside with-exception-handler + parameterize and compares the
+    recorded handler calls / parameter value with this model (always none / unchanged). *)
+Theorem fold_eval_unobservable : forall d o cs, fold_eval d o cs = (prim_eval o cs, [], d).
+Proof. exact KindedProofs.fold_eval_unobservable. Qed.
+Print Assumptions fold_eval_unobservable.
+
+Theorem ksimplify_dyn_independent : forall e d d' S il, ksimplify d e S il = ksimplify d' e S il.
+Proof. exact KindedProofs.ksimplify_dyn_independent. Qed.
+Print Assumptions ksimplify_dyn_independent.
+
+Theorem kfold_only_when_value : forall d o args S il e,
+  ksimplify d (KApp (KOp o) args) S il = e -> e <> KApp (KOp o) (map (fun a => ksimplify d a S il) args) ->
+  exists cs r, kall_simple (map (fun a => ksimplify d a S il) args) = Some cs /\ prim_eval o cs = Some r /\ is_arith o = true
+               /\ e = KLit r /\ snd (fst (fold_eval d o cs)) = [] /\ snd (fold_eval d o cs) = d.
+Proof. exact KindedProofs.kfold_only_when_value. Qed.
+Print Assumptions kfold_only_when_value.
